@@ -19,7 +19,7 @@ from oracles import container
 
 ID = "C20"
 LEVEL = "fault_enumeration"
-RUN_TIMEOUT_S = 75
+RUN_TIMEOUT_S = 300
 RULE = (
     "each evaluation is one fault applied to one stored corpus image or one save: (a) a truncation length / byte flip / "
     "torn or zero-filled image / garbage image opened through TTFont (stream and path, lazy modes) with every table then "
